@@ -1,7 +1,7 @@
 """C06 — insertion evaluation agrees with brute-force simulation: the soundness gate (structural clauses)."""
 from .. import cg, mir, util
 from ..facts import AnchorError
-from . import c01, c05
+from . import c01, c02, c05
 
 EVAL_MOD = c01.EVAL_MOD
 LEG = EVAL_MOD + "::analyze_insertion_in_route_leg"
@@ -80,7 +80,10 @@ def run(ctx):
     ctx.explanation = (
         "Soundness gate of the insertion evaluator: a reported success was evaluated by the complete constraint set on exactly that move on activity and "
         "route level (C01-G1/G2/G3), the multi-job shadow route is refreshed between sub-insertions (C05-I1), and in exhaustive mode the scan over "
-        "legs/places/time windows is aborted only by a `stopped` violation while every leg from the skip index on is folded (E1).")
+        "legs/places/time windows is aborted only by a `stopped` violation while every leg from the skip index on is folded (E1). The time-window constraint "
+        "is evaluated over all orderings of the values it compares (W1): a position is admitted iff no arrival is after its latest time and the shift covers the "
+        "windows, and the scan-aborting `fail` verdict is only raised on facts that do not involve the arrival at the target (completeness of the exhaustive scan "
+        "w.r.t. time windows); can_fit is exactly `load <= capacity` per dimension and is asked the right way round (O3/O4).")
     ctx.not_decided = ("completeness (`fails only if no feasible position exists`) rests on the semantic correctness of each feature's `stopped` flag and of the O(1) "
                        "summaries — value-level; equality with an independent simulation.")
     ctx.run("C01-G1", "activity-level gate", c01.g1_activity_gate, floor=1)
@@ -88,3 +91,7 @@ def run(ctx):
     ctx.run("C01-G3", "success construction", c01.g3_success_construction, floor=12)
     ctx.run("C05-I1", "shadow insertion followed by accept_route_state", c05.i1_insert_then_accept, floor=2)
     ctx.run("C06-E1", "exhaustive scan: aborted only on `stopped`; every leg folded", e1_exhaustive_scan, floor=4)
+    ctx.run("C01-W1", "time windows: admitted iff no arrival after its latest time; the scan is aborted (fail) only on target-independent facts", c01.w1_time_window_law, floor=2)
+    ctx.run("C01-O3", "can_fit(capacity, load) iff load <= capacity in every dimension", c01.o3_can_fit_law, floor=7)
+    ctx.run("C01-O4", "can_fit asked of the capacity about the load", c01.o4_can_fit_roles, floor=8)
+    ctx.run("C02-O1", "leg search honours the start index (sub-jobs left to right)", c02.o1_subjob_order, floor=3)
